@@ -99,6 +99,10 @@ func CodecCatalogue() []*Request {
 		M("Emp", F("keep", 1, "", Msg(q("cxempty", "Meta")), Empty("PRESERVE")), F("nul_it", 2, "", Msg(q("cxempty", "Meta")), Empty("NULL")),
 			F("omit", 3, "", Msg(q("cxempty", "Meta")), Empty("OMIT")), F("plain", 4, "", Msg(q("cxempty", "Meta"))), F("name", 5, "string")),
 	}, "Emp", ctxOpts{}))
+	// empty_behavior on well-known Timestamp children (the epoch has proto.Size 0)
+	add(featureReq("cxemptyts", nil, []*Message{
+		M("EmpTs", F("nul_at", 1, "", Msg(Timestamp), Empty("NULL")), F("omit_at", 2, "", Msg(Timestamp), Empty("OMIT")), F("keep_at", 3, "", Msg(Timestamp), Empty("PRESERVE")), F("name", 4, "string")),
+	}, "EmpTs"))
 	add(contextReq("cxts", nil, []*Message{
 		M("Times", F("r", 1, "", Msg(Timestamp), TsFmt("RFC3339")), F("secs", 2, "", Msg(Timestamp), TsFmt("UNIX_SECONDS")), F("at_ms", 3, "", Msg(Timestamp), TsFmt("UNIX_MILLIS")),
 			F("day", 4, "", Msg(Timestamp), TsFmt("DATE")), F("plain", 5, "", Msg(Timestamp)), F("name", 6, "string")),
